@@ -38,6 +38,9 @@ pub struct Case {
     /// the target message's aad EQUALS the session's info string (two independent inputs that happen to coincide)
     #[serde(default)]
     pub aad_is_info: bool,
+    /// the target message has an aad of 70000 bytes; the variants touch it at and around offset 65535 and at its end
+    #[serde(default)]
+    pub long_aad: bool,
 }
 
 pub struct C06;
@@ -174,9 +177,9 @@ impl Part for C06 {
                             if single && !t && suite.kem != crate::refmodel::Kem::X25519 {
                                 continue;
                             }
-                            v.push(Case { suite, mode, pos, shape, iface, last: false, distant: 0, aad_is_info: false });
+                            v.push(Case { suite, mode, pos, shape, iface, last: false, distant: 0, aad_is_info: false, long_aad: false });
                             if pos == 2 && !single && (shape % 4 == 0 || t) && mode == Mode::Base {
-                                v.push(Case { suite, mode, pos, shape, iface, last: true, distant: 0, aad_is_info: false });
+                                v.push(Case { suite, mode, pos, shape, iface, last: true, distant: 0, aad_is_info: false, long_aad: false });
                             }
                         }
                     }
@@ -187,8 +190,15 @@ impl Part for C06 {
             if suite.kdf == suite.kem.kdf() && (t || matches!(suite.kem, crate::refmodel::Kem::X25519 | crate::refmodel::Kem::P256)) {
                 for iface in IFACES {
                     for shape in [2usize, 5] {
-                        v.push(Case { suite, mode: Mode::Base, pos: 0, shape, iface, last: false, distant: 0, aad_is_info: true });
+                        v.push(Case { suite, mode: Mode::Base, pos: 0, shape, iface, last: false, distant: 0, aad_is_info: true, long_aad: false });
                     }
+                }
+            }
+        }
+        for suite in seal_suites() {
+            if suite.kem == crate::refmodel::Kem::X25519 && suite.kdf == crate::refmodel::Kdf::Sha256 {
+                for iface in IFACES {
+                    v.push(Case { suite, mode: Mode::Base, pos: 0, shape: 2, iface, last: false, distant: 0, aad_is_info: false, long_aad: true });
                 }
             }
         }
@@ -199,7 +209,7 @@ impl Part for C06 {
                 }
                 for distant in [8u8, 16, 24, 32, 40, 48, 56, 60, 62, 63] {
                     for iface in [Iface::Open, Iface::OpenInPlace] {
-                        v.push(Case { suite, mode: Mode::Base, pos: 0, shape: 0, iface, last: false, distant, aad_is_info: false });
+                        v.push(Case { suite, mode: Mode::Base, pos: 0, shape: 0, iface, last: false, distant, aad_is_info: false, long_aad: false });
                     }
                 }
             }
@@ -258,7 +268,7 @@ impl Part for C06 {
                 a.push(i as u8); // aads of different messages differ
                 a
             };
-            let aad = if c.aad_is_info && i == c.pos { info.clone() } else { aad };
+            let aad = if c.aad_is_info && i == c.pos { info.clone() } else if c.long_aad && i == c.pos { bytes(Fill::Mix, 70_000, 777, cfg.seed) } else { aad };
             let ct = refctx.seal_at(base + i as u128, &aad, &pt);
             msgs.push(Msg { pt, aad, ct });
         }
@@ -286,13 +296,32 @@ impl Part for C06 {
             t[i / 8] ^= 1 << (i % 8);
             vars.push(mk(body, &t, &target.aad, None, format!("flip tag bit {}", i)));
         }
-        for i in 0..target.aad.len() * 8 {
+        let aad_bits: Vec<usize> = if c.long_aad {
+            // around every power of two from 2^8 to 2^16 (byte offsets), and the ends
+            let mut v = vec![0usize, 7];
+            for e in 8..=16u32 {
+                let o = 1usize << e;
+                for d in [o - 1, o, o + 1] {
+                    if d < target.aad.len() {
+                        v.push(d * 8);
+                        v.push(d * 8 + 7);
+                    }
+                }
+            }
+            v.push(target.aad.len() * 8 - 1);
+            v.push(target.aad.len() * 8 - 8);
+            v
+        } else {
+            (0..target.aad.len() * 8).collect()
+        };
+        for i in aad_bits {
             let mut a = target.aad.clone();
             a[i / 8] ^= 1 << (i % 8);
             vars.push(mk(body, tag, &a, None, format!("flip aad bit {}", i)));
         }
         // aad truncation / extension / empty
-        for l in 0..target.aad.len() {
+        let aad_cuts: Vec<usize> = if c.long_aad { vec![0, 1, 255, 256, 65534, 65535, 65536, 65537, target.aad.len() - 1] } else { (0..target.aad.len()).collect() };
+        for l in aad_cuts {
             vars.push(mk(body, tag, &target.aad[..l], None, format!("aad truncated to {}", l)));
         }
         for ext in [vec![0u8], vec![0u8; 16], vec![1u8]] {
